@@ -84,8 +84,8 @@ func c14Menu(b string, thorough bool) []c14Stmt {
 	principals := []pv{
 		{[]string{"u1"}, `["u1"]`}, {[]string{"*"}, `"*"`}, {[]string{"u1", "u2"}, `["u1","u2"]`}, {[]string{"u2"}, `"u2"`}, {[]string{"u1"}, `{"AWS":"u1"}`},
 	}
-	actions := [][]string{{"s3:GetObject"}, {"s3:*"}, {"s3:Get*"}, {"s3:GetObject", "s3:PutObject"}, {"s3:ListBucket"}, {"s3:*", "s3:GetObject"}}
-	resources := [][]string{{b}, {b + "/*"}, {b, b + "/*"}, {b + "/dir/*"}, {b + "/obj?"}, {b + "/k1"}}
+	actions := [][]string{{"s3:GetObject"}, {"s3:*"}, {"s3:Get*"}, {"s3:GetObject", "s3:PutObject"}, {"s3:ListBucket"}, {"s3:*", "s3:GetObject"}, {"s3:GetObject*"}, {"s3:PutObject*", "s3:ListBucket"}}
+	resources := [][]string{{b}, {b + "/*"}, {b, b + "/*"}, {b + "/dir/*"}, {b + "/obj?"}, {b + "/k1"}, {b + "/d&r/*"}}
 	if !thorough {
 		principals = principals[:4]
 	}
@@ -100,6 +100,18 @@ func c14Menu(b string, thorough bool) []c14Stmt {
 					}
 					js := fmt.Sprintf(`{"Effect":%q,"Principal":%s,"Action":%s,"Resource":%s}`, e, p.json, jsonList(a, ai%2 == 0), jsonList(arns, ri%2 == 1))
 					out = append(out, c14Stmt{Ref: refStmt{e, p.ids, a, r}, JSON: js})
+					// the same statement as other JSON encoders spell it: '/' as \/, '&' and a digit as \uXXXX
+					// (both in the single-string and in the array form of Resource)
+					for _, single := range []bool{true, false} {
+						if single && len(arns) != 1 {
+							continue
+						}
+						esc := strings.NewReplacer("/", `\/`, "&", `\u0026`, "1", `\u0031`).Replace(jsonList(arns, single))
+						js2 := fmt.Sprintf(`{"Effect":%q,"Principal":%s,"Action":%s,"Resource":%s}`, e, p.json, jsonList(a, ai%2 == 0), esc)
+						if js2 != js && (ai < 2 || thorough) {
+							out = append(out, c14Stmt{Ref: refStmt{e, p.ids, a, r}, JSON: js2})
+						}
+					}
 				}
 			}
 		}
@@ -165,7 +177,7 @@ func refStmtValid(st refStmt, b string) bool {
 
 func C14(r *ck.Run) {
 	requireMapOrderInstrumented()
-	r.Rule("(a) every glob pattern over {a,b,/,*,?} up to a length bound × every subject over {a,b,/} and (one shorter) over {a,/,*,?}; (b) every policy of 1-2 statements from a menu (effect × principal shape × action shape × resource shape, string-or-array JSON forms) × caller × action × resource, evaluated under EVERY iteration order of the policy's maps; (c) a menu of valid and invalid documents validated directly under every map order and put through HTTP; distinct = distinct (pattern,subject) / (policy,query) / document")
+	r.Rule("(a) every glob pattern over {a,b,/,*,?} up to a length bound × every subject over {a,b,/} and (one shorter) over {a,/,*,?}; (b) every policy of 1-2 statements from a menu (effect × principal shape × action shape incl. '<full action name>*' × resource shape, string-or-array JSON forms, plain and with JSON escape sequences) × caller × action × resource, evaluated under EVERY iteration order of the policy's maps; (c) a menu of valid and invalid documents validated directly under every map order and put through HTTP; distinct = distinct (pattern,subject) / (policy,query) / document")
 	r.Assume("map iteration order of package auth is owned by the explorer through the overlay (range <map> → vmap.Keys)")
 	iam := c14IAM{map[string]bool{"u1": true, "u2": true, "u3": true}}
 	b := "bkt"
@@ -201,7 +213,7 @@ func C14(r *ck.Run) {
 		menu := c14Menu(b, r.Thorough())
 		callers := []string{"u1", "u2", "u3"}
 		qactions := []string{"s3:GetObject", "s3:PutObject", "s3:ListBucket", "s3:GetBucketAcl"}
-		qres := []string{"", "k1", "dir/x", "obj1", "dir/", "dir//x", "dir/x/"}
+		qres := []string{"", "k1", "dir/x", "obj1", "dir/", "dir//x", "dir/x/", "d&r/x"}
 		evalPolicy := func(stmts []c14Stmt, tag string) {
 			var js []string
 			var ref []refStmt
